@@ -97,6 +97,18 @@ def one_case(ctx, prog, g, exe, backend):
             derived = any(l['kind'] == 'D' and l['param'] for l in prog.classes[c]['locals'])
             (r['known'] if derived else r['fails']).append('key_print(make_key(%s)) printed "%s"' % (want, printed))
     r['instances'] = nkeys
+    # the runtime uses the keys in its dependency hash tables and data repositories: a program with positive steps must also
+    # RUN to completion, every instance exactly once
+    if not has_neg(prog, g):
+        ran = {}
+        for k, c, env, th in pvptg.events_of(ops):
+            if k == 'B':
+                ran[(c, env)] = ran.get((c, env), 0) + 1
+        want = {(c, a) for c in range(nc) for a in spaces[c]}
+        if impl[-1:] != ['complete']:
+            r['fails'].append('the program did not run to completion: end => %s' % (impl[-1] if impl else None))
+        elif set(ran) != want or any(v != 1 for v in ran.values()):
+            r['fails'].append('executed instances differ from the space: %d distinct executed, %d in the space' % (len(ran), len(want)))
     return r
 
 
@@ -104,8 +116,9 @@ def run(ctx, res, cases=None):
     rng = pv.Rng(ctx.seed)
     corpus = load_corpus()
     if cases is None:
-        n = 11 if ctx.quick else 120
-        progs = corpus + ptg_gen.gen_programs(rng, n, 'shapes', 'k') + ptg_gen.gen_programs(rng.fork(777), 3 if ctx.quick else 30, 'full', 'f')
+        n = 9 if ctx.quick else 120
+        progs = (corpus + ptg_gen.gen_programs(rng, n, 'shapes', 'k') + ptg_gen.gen_programs(rng.fork(777), 3 if ctx.quick else 30, 'full', 'f') +
+                 ptg_gen.gen_programs(rng.fork(555), 4 if ctx.quick else 40, 'wide', 'w'))
     else:
         progs = cases
     built, err = pvptg.build_many(ctx, progs, pvptg.BACKENDS[:1])
